@@ -491,11 +491,12 @@ def run(chk, repo, tier):
                 if isinstance(w, ast.With) and any(x is c for x in ast.walk(w)):
                     for it in w.items:
                         ce = it.context_expr
-                        if isinstance(ce, ast.Call) and isinstance(ce.func, ast.Attribute) \
-                                and ce.func.attr in ('_read_lock', '_write_lock') and ce.args \
-                                and unparse(ce.args[0]) == key:
+                        # self._write_lock(path) / a module-level _write_lock(path) / path_lock(<lock file>, shared=..) directly
+                        lname = ce.func.attr if isinstance(ce, ast.Call) and isinstance(ce.func, ast.Attribute) else (
+                            ce.func.id if isinstance(ce, ast.Call) and isinstance(ce.func, ast.Name) else None)
+                        if lname in ('_read_lock', '_write_lock') and ce.args and unparse(ce.args[0]) == key:
                             if holder != '_write_lock':
-                                holder = ce.func.attr
+                                holder = lname
             chk.instance(K5, f'{name}: {unparse(c)[:60]} mode {mode} under {holder}')
             if holder is None or (need and holder != need):
                 chk.violation(K5, crel, f.qualname, unparse(c),
@@ -559,9 +560,12 @@ def run(chk, repo, tier):
         td, fd = c.methods.get('to_dict'), c.methods.get('from_dict')
         if not td or not fd:
             continue
+        # {i: x for i, x in enumerate(xs)} or dict(enumerate(xs)): keys are positions
         positional = any(isinstance(n, ast.DictComp) and any(
             isinstance(g.iter, ast.Call) and call_name(g.iter) == 'enumerate' for g in n.generators)
-            for n in ast.walk(td.node))
+            for n in ast.walk(td.node)) or any(
+            isinstance(n, ast.Call) and call_name(n) == 'dict' and n.args and isinstance(n.args[0], ast.Call)
+            and call_name(n.args[0]) == 'enumerate' for n in ast.walk(td.node))
         if not positional:
             continue
         n8 += 1
